@@ -132,10 +132,11 @@ def ensure_facts(repo=REPO):
         if not os.path.exists(done):
             if os.path.isdir(fdir):
                 shutil.rmtree(fdir)
-            # keep at most 3 old fact dirs
+            # keep at most 12 fact dirs; never remove one younger than 30 minutes (parallel scratch analyses may be using it)
             olds = sorted(glob.glob(os.path.join(WORK, "facts", "*")), key=os.path.getmtime)
-            for o in olds[:-3]:
-                shutil.rmtree(o, ignore_errors=True)
+            for o in olds[:-12]:
+                if time.time() - os.path.getmtime(o) > 1800:
+                    shutil.rmtree(o, ignore_errors=True)
             t0 = time.time()
             run_driver(fdir, repo)
             for u in UNIT_FLOORS:
